@@ -42,6 +42,12 @@ def run(fb, rep, tier):
     from . import C01
     C01.c1_masks(fb, rep, clause='C04.3', only=('MoveGen::checkEvasions',))
     c4_bound_types(fb, rep, 'C04.4')
+    # .5 mate scores are stored relative to the node and read back relative to the reader: the ply-shift codec and every
+    # decode / re-store pair of the hash table agree on the ply (shared with C08.4) - a score shifted the wrong way is a
+    # mate announced too short
+    from . import C08
+    C08.c4_plyshift(fb, rep, clause='C04.5')
+    C08.restore_ply_agreement(fb, rep, 'C04.5')
 
 
 def encoders(fb, rep, clause):
